@@ -45,6 +45,8 @@ pub trait Backend: Send + Sync + 'static {
     fn chan_notify(&self, c: ChanId, what: &'static str);
     /// Blocks the calling task until `chan_notify` or the timeout; `false` = timed out.
     fn chan_wait(&self, c: ChanId, timeout: Duration) -> bool;
+    /// Trace (and scheduling) point at the start and at every return of a channel receive.
+    fn chan_trace(&self, c: ChanId, what: &'static str);
     // file system points
     fn fs_point(&self, op: &'static str, path: &Path);
     fn disk_write_point(&self, file: &mut File, data: &[u8]) -> io::Result<()>;
@@ -282,29 +284,44 @@ pub mod mpsc {
             match self {
                 Receiver::Real(r) => r.recv_timeout(timeout),
                 Receiver::Sim(id, b, inner) => {
+                    b.chan_trace(*id, "recv-call");
                     let deadline = b.now_ns() + timeout.as_nanos() as i128;
                     loop {
                         {
                             let mut g = inner.lock().unwrap();
                             if let Some(t) = g.queue.pop_front() {
+                                drop(g);
+                                b.chan_trace(*id, "recv-ok");
                                 return Ok(t);
                             }
                             if g.senders == 0 {
+                                drop(g);
+                                b.chan_trace(*id, "recv-disconnected");
                                 return Err(RecvTimeoutError::Disconnected);
                             }
                         }
                         let left = deadline - b.now_ns();
-                        if left <= 0 {
-                            return Err(RecvTimeoutError::Timeout);
-                        }
-                        let left = Duration::new(
-                            (left / 1_000_000_000) as u64,
-                            (left % 1_000_000_000) as u32,
-                        );
-                        if !b.chan_wait(*id, left) {
+                        let left = if left <= 0 {
+                            Duration::ZERO
+                        } else {
+                            Duration::new(
+                                (left / 1_000_000_000) as u64,
+                                (left % 1_000_000_000) as u32,
+                            )
+                        };
+                        if left.is_zero() || !b.chan_wait(*id, left) {
                             // Timed out; a last look at the queue, like the real channel.
-                            let mut g = inner.lock().unwrap();
-                            return g.queue.pop_front().ok_or(RecvTimeoutError::Timeout);
+                            let got = inner.lock().unwrap().queue.pop_front();
+                            return match got {
+                                Some(t) => {
+                                    b.chan_trace(*id, "recv-ok");
+                                    Ok(t)
+                                }
+                                None => {
+                                    b.chan_trace(*id, "recv-timeout");
+                                    Err(RecvTimeoutError::Timeout)
+                                }
+                            };
                         }
                     }
                 }
